@@ -445,6 +445,15 @@ def longest_string_rule(prog, res, rule='validate-first'):
                 break
         if mm and la and la[0]['name'] == mm.group(1) and la[0]['bound'] == stored[0] + '.size' and guard in ('(%s > %s)' % (rhs, v), '(%s < %s)' % (v, rhs)):
             good.append(a)
+            continue
+        # v = std::max(v, X[i].size())  in either argument order
+        mx = re.match(r'^std::max\((.*),(.*)\)$', rhs)
+        if mx and la:
+            x, y = mx.group(1), mx.group(2)
+            other = y if x == v else (x if y == v else None)
+            mo = re.match(r'^' + S + r'\[(?:\(unsigned long\))?local:(\w+)\]\.size$', other or '')
+            if mo and la[0]['name'] == mo.group(1) and la[0]['bound'] == stored[0] + '.size':
+                good.append(a)
     init0 = False
     from paths import local_init
     for n in f.all_nodes({'DeclStmt'}):
